@@ -8,6 +8,7 @@ Open Scope Z_scope.
 
 Section TwoIndexProofs.
   Variable tab : Type.
+  Variable VT : Type.
   Variables ids1 ids2 : tab -> list Z.
   Variables sub1 sub2 : list Z -> list Z -> tab -> res tab.
   (* subsetting rows leaves the column IDs alone and vice versa *)
@@ -15,11 +16,15 @@ Section TwoIndexProofs.
   Hypothesis sub2_ids1 : forall s r t t', sub2 s r t = Ok t' -> ids1 t' = ids1 t.
 
   Notation obj := (obj tab).
-  Notation op := (op tab).
-  Notation m_step := (m_step tab ids1 ids2 sub1 sub2).
-  Notation a_step := (a_step tab ids1 ids2 sub1 sub2).
-  Notation m_run := (m_run tab ids1 ids2 sub1 sub2).
-  Notation a_run := (a_run tab ids1 ids2 sub1 sub2).
+  Notation op := (op tab VT).
+  Notation m_step := (m_step tab VT ids1 ids2 sub1 sub2).
+  Notation a_step := (a_step tab VT ids1 ids2 sub1 sub2).
+  Notation m_run := (m_run tab VT ids1 ids2 sub1 sub2).
+  Notation a_run := (a_run tab VT ids1 ids2 sub1 sub2).
+  Notation m_stepx := (m_stepx tab VT ids1 ids2 sub1 sub2).
+  Notation a_stepx := (a_stepx tab VT ids1 ids2 sub1 sub2).
+  Notation m_runx := (m_runx tab VT ids1 ids2 sub1 sub2).
+  Notation a_runx := (a_runx tab VT ids1 ids2 sub1 sub2).
 
   (* a cache is absent, or it is the current (duplicate-free) ID list *)
   Definition valid (c : option (list Z)) (ids : list Z) : Prop :=
@@ -100,7 +105,7 @@ Section TwoIndexProofs.
     end.
   Proof.
     intros [V1 V2] OK. destruct o as [t c1 c2]. cbn [o_tab o_c1 o_c2] in *.
-    destruct p as [f|r1 r2 inplace|b1 b2].
+    destruct p as [f|r1 r2 inplace|b1 b2|r1 r2 view].
     - (* a mutator: the caches follow its declared effect *)
       cbn [C12_Model.m_step C12_Model.a_step o_tab o_c1 o_c2].
       destruct (f t) as [[[t' a1] a2]|k] eqn:F; cbn [bind]; [|reflexivity].
@@ -137,6 +142,21 @@ Section TwoIndexProofs.
       destruct (ensure_spec b2 c2 (ids2 t) V2) as [[E2 K2]|[c2' [E2 [K2 [V2' _]]]]];
         rewrite E2, K2; cbn [bind]; [reflexivity|].
       split; [reflexivity|]. split; cbn [o_tab o_c1 o_c2]; assumption.
+    - (* a read-only by-ID query: subset(inplace=False) on the object, then a function of the copy *)
+      cbn [C12_Model.m_step C12_Model.a_step o_tab o_c1 o_c2].
+      destruct (ensure_spec (is_some r1) c1 (ids1 t) V1) as [[E1 K1]|[c1' [E1 [K1 [V1' [W1 N1]]]]]];
+        rewrite E1, K1; cbn [bind]; [reflexivity|].
+      destruct (ensure_spec (is_some r2) c2 (ids2 t) V2) as [[E2 K2]|[c2' [E2 [K2 [V2' [W2 N2]]]]]];
+        rewrite E2, K2; cbn [bind]; [reflexivity|].
+      rewrite (sub_part sub1 r1 c1' (ids1 t) t W1).
+      destruct (match r1 with Some req => sub1 (ids1 t) req t | None => Ok t end) as [t1|k] eqn:T1;
+        cbn [bind]; [|reflexivity].
+      assert (I2 : ids2 t1 = ids2 t).
+      { destruct r1; [eapply sub1_ids2; exact T1|injection T1 as <-; reflexivity]. }
+      rewrite (sub_part sub2 r2 c2' (ids2 t1) t1) by (rewrite I2; exact W2).
+      destruct (match r2 with Some req => sub2 (ids2 t1) req t1 | None => Ok t1 end) as [t2|k] eqn:T2;
+        cbn [bind]; [|reflexivity].
+      split; [reflexivity|]. split; cbn [o_tab o_c1 o_c2]; assumption.
   Qed.
 
   Corollary cache_valid_step o p o' out :
@@ -162,6 +182,72 @@ Section TwoIndexProofs.
     induction ops as [|p r IH]; intros H t; cbn; [exact I|]. split.
     - apply H. left. reflexivity.
     - intros t' out _. apply IH. intros t0 q Hq. apply H. right. exact Hq.
+  Qed.
+  (* ---- histories that go on after a caught exception (repaired index(): heal = true) ---- *)
+
+  Lemma idx_fail_valid b1 b2 o :
+    cache_valid o ->
+    cache_valid (idx_fail tab ids1 ids2 true b1 b2 o) /\ o_tab (idx_fail tab ids1 ids2 true b1 b2 o) = o_tab o.
+  Proof.
+    intros [V1 V2]. destruct o as [t c1 c2]. unfold idx_fail. cbn [o_tab o_c1 o_c2] in *.
+    destruct (ensure_spec b1 c1 (ids1 t) V1) as [[E1 _]|[c1' [E1 [_ [V1' _]]]]]; rewrite E1.
+    - split; [|reflexivity]. split; cbn [o_tab o_c1 o_c2]; [left; reflexivity|exact V2].
+    - destruct (ensure_spec b2 c2 (ids2 t) V2) as [[E2 _]|[c2' [E2 [_ [V2' _]]]]]; rewrite E2.
+      + split; [|reflexivity]. split; cbn [o_tab o_c1 o_c2]; [exact V1'|left; reflexivity].
+      + split; [|reflexivity]. split; cbn [o_tab o_c1 o_c2]; assumption.
+  Qed.
+
+  Lemma fail_obj_valid o p :
+    cache_valid o ->
+    cache_valid (fail_obj tab VT ids1 ids2 true o p) /\ o_tab (fail_obj tab VT ids1 ids2 true o p) = o_tab o.
+  Proof.
+    intro Vo. destruct p as [f|r1 r2 i|b1 b2|r1 r2 view]; cbn [fail_obj];
+      [split; [exact Vo|reflexivity]|apply idx_fail_valid; exact Vo..].
+  Qed.
+
+  Theorem stepx_refines o p :
+    cache_valid o -> op_ok (o_tab o) p ->
+    a_stepx (o_tab o) p = (o_tab (fst (m_stepx true o p)), snd (m_stepx true o p))
+    /\ cache_valid (fst (m_stepx true o p)).
+  Proof.
+    intros Vo OK. pose proof (step_refines o p Vo OK) as H. unfold C12_Model.m_stepx, C12_Model.a_stepx.
+    destruct (m_step o p) as [[o' r]|k].
+    - destruct H as [HA V']. rewrite HA. cbn [fst snd]. split; [reflexivity|exact V'].
+    - rewrite H. cbn [fst snd]. destruct (fail_obj_valid o p Vo) as [V' T']. rewrite T'.
+      split; [reflexivity|exact V'].
+  Qed.
+
+  Fixpoint ops_okx (t : tab) (ops : list op) : Prop :=
+    match ops with
+    | [] => True
+    | p :: r => op_ok t p /\ ops_okx (fst (a_stepx t p)) r
+    end.
+
+  Theorem runx_refines ops : forall o,
+    cache_valid o -> ops_okx (o_tab o) ops -> m_runx true o ops = a_runx (o_tab o) ops.
+  Proof.
+    induction ops as [|p r IH]; intros o Vo OK; [reflexivity|].
+    destruct OK as [OKp OKr]. destruct (stepx_refines o p Vo OKp) as [HA V'].
+    cbn [C12_Model.m_runx C12_Model.a_runx]. rewrite HA in *. cbn [fst] in OKr.
+    destruct (m_stepx true o p) as [o' [x|k]]; cbn [fst snd] in *.
+    - f_equal. apply IH; assumption.
+    - f_equal. destruct (k =? E_Value); [apply IH; assumption|reflexivity].
+  Qed.
+
+  Lemma ops_okx_all ops : (forall t p, In p ops -> op_ok t p) -> forall t, ops_okx t ops.
+  Proof.
+    induction ops as [|p r IH]; intros H t; cbn; [exact I|]. split.
+    - apply H. left. reflexivity.
+    - apply IH. intros t0 q Hq. apply H. right. exact Hq.
+  Qed.
+
+  (* the history that stops at the first exception is the beginning of the one that goes on,
+     whatever index() leaves behind when it raises *)
+  Theorem run_cut_runx heal ops : forall o, m_run o ops = cut (m_runx heal o ops).
+  Proof.
+    induction ops as [|p r IH]; intro o; [reflexivity|].
+    cbn [C12_Model.m_run C12_Model.m_runx]. unfold C12_Model.m_stepx.
+    destruct (m_step o p) as [[o' x]|k]; cbn [cut]; [f_equal; apply IH|reflexivity].
   Qed.
 End TwoIndexProofs.
 
@@ -194,9 +280,9 @@ Section GenoProofs.
   Variable anc : bool.
 
   (* every Genotypes operation of the repaired code declares its effect on the caches truthfully *)
-  Lemma g_op_ok t p : op_ok gtab g_ids1 g_ids2 t (g_interp T rare file anc false p).
+  Lemma g_op_ok t p : op_ok gtab gview g_ids1 g_ids2 t (g_interp T rare file anc false p).
   Proof.
-    destruct p as [ss vs|ss vs i|s v| | |th]; cbn; try exact I.
+    destruct p as [ss vs|ss vs i|s v| | |th| | |th| |ids|vids]; cbn; try exact I.
     - intros t' a1 a2 H. injection H as <- <- <-. cbn. auto.
     - intros t' a1 a2 H. injection H as <- <- <-. unfold check_missing.
       destruct (nonzero2 0 (maskof (cell_missing anc) t)); cbn; auto.
@@ -204,13 +290,26 @@ Section GenoProofs.
       destruct (nonzero2 0 (maskof cell_multi t)); cbn; auto.
     - intros t' a1 a2 H. injection H as <- <- <-. unfold check_maf.
       destruct (rare_idx (rare th) t); cbn; auto.
+    - (* the non-discarding checks return with the IDs untouched, or raise *)
+      intros t' a1 a2 H. unfold raising, check_missing in H.
+      destruct (nonzero2 0 (maskof (cell_missing anc) t)); [|discriminate].
+      injection H as <- <- <-. cbn. auto.
+    - intros t' a1 a2 H. unfold raising, check_biallelic in H.
+      destruct (nonzero2 0 (maskof cell_multi t)); [|discriminate].
+      injection H as <- <- <-. cbn. auto.
+    - intros t' a1 a2 H. unfold raising, check_maf in H.
+      destruct (rare_idx (rare th) t); [|discriminate].
+      injection H as <- <- <-. cbn. auto.
+    - intros t' a1 a2 H. unfold raising, check_sorted in H.
+      destruct (sorted_ok (g_variants t)); [|discriminate].
+      injection H as <- <- <-. cbn. auto.
   Qed.
 
   Theorem refines_geno ops :
     gm_run T rare file anc false ops = ga_run T rare file anc false ops.
   Proof.
     unfold gm_run, ga_run.
-    apply (run_refines gtab g_ids1 g_ids2 g_sub1 g_sub2 g_sub1_ids2 g_sub2_ids1).
+    apply (run_refines gtab gview g_ids1 g_ids2 g_sub1 g_sub2 g_sub1_ids2 g_sub2_ids1).
     - split; left; reflexivity.
     - apply ops_ok_all. intros t p Hp. apply in_map_iff in Hp. destruct Hp as [q [<- _]].
       apply g_op_ok.
@@ -219,10 +318,10 @@ Section GenoProofs.
   (* the invariant itself, for any reachable object *)
   Theorem geno_cache_valid_step o p o' out :
     cache_valid gtab g_ids1 g_ids2 o ->
-    m_step gtab g_ids1 g_ids2 g_sub1 g_sub2 o (g_interp T rare file anc false p) = Ok (o', out) ->
+    m_step gtab gview g_ids1 g_ids2 g_sub1 g_sub2 o (g_interp T rare file anc false p) = Ok (o', out) ->
     cache_valid gtab g_ids1 g_ids2 o'.
   Proof.
-    intros V E. eapply (cache_valid_step gtab g_ids1 g_ids2 g_sub1 g_sub2 g_sub1_ids2 g_sub2_ids1); eauto.
+    intros V E. eapply (cache_valid_step gtab gview g_ids1 g_ids2 g_sub1 g_sub2 g_sub1_ids2 g_sub2_ids1); eauto.
     apply g_op_ok.
   Qed.
 End GenoProofs.
@@ -245,7 +344,7 @@ Qed.
 Section PhenoProofs.
   Variable file : ptab.
 
-  (* append must be given a name the object does not hold yet *)
+  (* append as it is in the tree must be given a name the object does not hold yet *)
   Definition p_pre (t : ptab) (p : pop) : Prop :=
     match p with PAppend name _ => ~ In name (p_names t) | _ => True end.
 
@@ -254,22 +353,25 @@ Section PhenoProofs.
     | [] => True
     | p :: r =>
         p_pre t p
-        /\ forall t' out, a_step ptab p_ids1 p_ids2 p_sub1 p_sub2 t (p_interp file false p) = Ok (t', out) ->
+        /\ forall t' out, a_step ptab unit p_ids1 p_ids2 p_sub1 p_sub2 t (p_interp file false false p) = Ok (t', out) ->
                           fresh_appends t' r
     end.
 
-  Lemma p_op_ok t p : p_pre t p -> op_ok ptab p_ids1 p_ids2 t (p_interp file false p).
+  Lemma p_op_ok t p : p_pre t p -> op_ok ptab unit p_ids1 p_ids2 t (p_interp file false false p).
   Proof.
-    destruct p as [ss|ss ns i|s n| |name col]; cbn; try (intros; exact I).
+    destruct p as [ss|ss ns i|s n| |name col|]; cbn; try (intros; exact I).
     - intros _ t' a1 a2 H. injection H as <- <- <-. cbn. auto.
     - intros _ t' a1 a2 H.
       destruct (existsb (fun b => b) (map row_missing (p_rows t))); injection H as <- <- <-; cbn; auto.
     - intros Hn t' a1 a2 H. destruct (Nat.eqb (length col) (length (p_rows t))); [|discriminate].
       injection H as <- <- <-. cbn. split; [reflexivity|]. split; [reflexivity|exact Hn].
+    - intros _ t' a1 a2 H.
+      destruct (existsb (fun b => b) (map row_missing (p_rows t))); [discriminate|].
+      injection H as <- <- <-. cbn. auto.
   Qed.
 
   Lemma fresh_appends_ops_ok ops : forall t,
-    fresh_appends t ops -> ops_ok ptab p_ids1 p_ids2 p_sub1 p_sub2 t (map (p_interp file false) ops).
+    fresh_appends t ops -> ops_ok ptab unit p_ids1 p_ids2 p_sub1 p_sub2 t (map (p_interp file false false) ops).
   Proof.
     induction ops as [|p r IH]; intros t H; cbn; [exact I|].
     destruct H as [Hp Hr]. split; [apply p_op_ok; exact Hp|].
@@ -277,10 +379,10 @@ Section PhenoProofs.
   Qed.
 
   Theorem refines_pheno ops :
-    fresh_appends p_empty ops -> pm_run file false ops = pa_run file false ops.
+    fresh_appends p_empty ops -> pm_run file false false ops = pa_run file false false ops.
   Proof.
     intro H. unfold pm_run, pa_run.
-    apply (run_refines ptab p_ids1 p_ids2 p_sub1 p_sub2 p_sub1_ids2 p_sub2_ids1).
+    apply (run_refines ptab unit p_ids1 p_ids2 p_sub1 p_sub2 p_sub1_ids2 p_sub2_ids1).
     - split; left; reflexivity.
     - apply fresh_appends_ops_ok. exact H.
   Qed.
@@ -289,7 +391,7 @@ Section PhenoProofs.
   Definition no_append (p : pop) : Prop := match p with PAppend _ _ => False | _ => True end.
 
   Theorem refines_pheno_no_append ops :
-    Forall no_append ops -> pm_run file false ops = pa_run file false ops.
+    Forall no_append ops -> pm_run file false false ops = pa_run file false false ops.
   Proof.
     intro H. apply refines_pheno. generalize p_empty. induction H as [|p r Hp _ IH]; intro t; cbn; [exact I|].
     split; [destruct p; cbn in *; auto|]. intros t' out _. apply IH.
@@ -376,8 +478,8 @@ Definition stale_history : list (gop unit) :=
   [GRead None None; GSubset None (Some [1]) false; GRead None (Some [1; 2]);
    GSubset None (Some [1]) false; GSubset None (Some [0]) false].
 
-Definition columns_of (x : res (gtab * option gtab)) : list Z :=
-  match x with Ok (_, Some r) => map vid (g_variants r) | _ => [] end.
+Definition columns_of (x : res (gtab * out gtab gview)) : list Z :=
+  match x with Ok (_, OCopy r) => map vid (g_variants r) | _ => [] end.
 
 (* read(); subset(v1); read({v1,v2}); subset(v1) returned v2's column, and subset(v0)
    (no longer present) was resolved to v1; the repaired model returns v1 resp. nothing *)
@@ -391,9 +493,9 @@ Definition pf3 : ptab := mkp [0; 1; 2] [0; 1] [[1; 2]; [3; 5]; [7; 0]].
 
 (* phenotypes: another sample's row, or IndexError *)
 Example legacy_pheno_stale_refuted :
-  pm_run pf3 true [PRead None; PSubset (Some [1]) None false; PRead (Some [1; 2]); PSubset (Some [1]) None false]
-  <> pa_run pf3 true [PRead None; PSubset (Some [1]) None false; PRead (Some [1; 2]); PSubset (Some [1]) None false]
-  /\ last (pm_run pf3 true [PRead None; PIndex true false; PRead (Some [2]); PSubset (Some [2]) None false]) (Err 0)
+  pm_run pf3 true false [PRead None; PSubset (Some [1]) None false; PRead (Some [1; 2]); PSubset (Some [1]) None false]
+  <> pa_run pf3 true false [PRead None; PSubset (Some [1]) None false; PRead (Some [1; 2]); PSubset (Some [1]) None false]
+  /\ last (pm_run pf3 true false [PRead None; PIndex true false; PRead (Some [2]); PSubset (Some [2]) None false]) (Err 0)
      = Err E_Index.
 Proof. split; [vm_compute; discriminate|vm_compute; reflexivity]. Qed.
 
@@ -451,55 +553,88 @@ Qed.
 
 Section PoolProofs.
   Variable tab : Type.
+  Variable VT : Type.
   Variables ids1 ids2 : tab -> list Z.
   Variables sub1 sub2 : list Z -> list Z -> tab -> res tab.
+  Variable merge : list tab -> res tab.
   Hypothesis sub1_ids2 : forall s r t t', sub1 s r t = Ok t' -> ids2 t' = ids2 t.
   Hypothesis sub2_ids1 : forall s r t t', sub2 s r t = Ok t' -> ids1 t' = ids1 t.
 
-  Notation pool_m_step := (pool_m_step tab ids1 ids2 sub1 sub2).
-  Notation pool_a_step := (pool_a_step tab ids1 ids2 sub1 sub2).
-  Notation pool_m_run := (pool_m_run tab ids1 ids2 sub1 sub2).
-  Notation pool_a_run := (pool_a_run tab ids1 ids2 sub1 sub2).
+  Notation pool_m_step := (pool_m_step tab VT ids1 ids2 sub1 sub2 merge).
+  Notation pool_a_step := (pool_a_step tab VT ids1 ids2 sub1 sub2 merge).
+  Notation pool_m_run := (pool_m_run tab VT ids1 ids2 sub1 sub2 merge).
+  Notation pool_a_run := (pool_a_run tab VT ids1 ids2 sub1 sub2 merge).
+  Notation pool_m_runx := (pool_m_runx tab VT ids1 ids2 sub1 sub2 merge).
+  Notation pool_a_runx := (pool_a_runx tab VT ids1 ids2 sub1 sub2 merge).
   Notation cache_valid := (cache_valid tab ids1 ids2).
 
   (* every mutator applied along the history declares its cache effect truthfully for the
      object it is applied to *)
-  Fixpoint pool_ops_ok (ts : list tab) (f : nat) (ops : list (xop (op tab))) : Prop :=
+  Fixpoint pool_ops_ok (ts : list tab) (f : nat) (ops : list (xop (op tab VT))) : Prop :=
     match ops with
     | [] => True
     | x :: r =>
         match x with
-        | XOn p => match nth_error ts f with Some t => op_ok tab ids1 ids2 t p | None => True end
-        | XSwitch _ => True
+        | XOn p => match nth_error ts f with Some t => op_ok tab VT ids1 ids2 t p | None => True end
+        | _ => True
         end
         /\ forall ts' f' out, pool_a_step ts f x = Ok (ts', f', out) -> pool_ops_ok ts' f' r
     end.
 
+  Lemma pick_map {A B} (g : A -> B) (l : list A) ks : pick (map g l) ks = option_map (map g) (pick l ks).
+  Proof.
+    induction ks as [|k r IH]; cbn; [reflexivity|]. rewrite nth_error_map, IH.
+    destruct (nth_error l k); cbn; [|reflexivity]. destruct (pick l r); reflexivity.
+  Qed.
+
+  Lemma new_objs_tabs (r : out tab VT) : map o_tab (new_objs tab VT r) = new_tabs tab VT r.
+  Proof. destruct r; reflexivity. Qed.
+
+  Lemma new_objs_valid (r : out tab VT) : Forall cache_valid (new_objs tab VT r).
+  Proof. destruct r; cbn; constructor; [|constructor]. split; left; reflexivity. Qed.
+
+  Definition focus_ok (objs : list (obj tab)) (f : nat) (x : xop (op tab VT)) : Prop :=
+    match x with
+    | XOn p => match nth_error objs f with Some o => op_ok tab VT ids1 ids2 (o_tab o) p | None => True end
+    | _ => True
+    end.
+
   Theorem pool_step_refines objs f x :
     Forall cache_valid objs ->
-    match x with
-    | XOn p => match nth_error objs f with Some o => op_ok tab ids1 ids2 (o_tab o) p | None => True end
-    | XSwitch _ => True
-    end ->
+    focus_ok objs f x ->
     match pool_m_step objs f x with
     | Ok (objs', f', out) =>
         pool_a_step (map o_tab objs) f x = Ok (map o_tab objs', f', out) /\ Forall cache_valid objs'
     | Err k => pool_a_step (map o_tab objs) f x = Err k
     end.
   Proof.
-    intros V OK. destruct x as [p|k]; cbn [C12_Model.pool_m_step C12_Model.pool_a_step].
+    intros V OK. destruct x as [p|k|ks]; cbn [C12_Model.pool_m_step C12_Model.pool_a_step focus_ok] in *.
     - rewrite nth_error_map. destruct (nth_error objs f) as [o|] eqn:E; cbn [option_map]; [|reflexivity].
       assert (Vo : cache_valid o).
       { rewrite Forall_forall in V. apply V. eapply nth_error_In. exact E. }
-      pose proof (step_refines tab ids1 ids2 sub1 sub2 sub1_ids2 sub2_ids1 o p Vo OK) as H.
-      destruct (m_step tab ids1 ids2 sub1 sub2 o p) as [[o' out]|k] eqn:M; cbn [bind].
+      pose proof (step_refines tab VT ids1 ids2 sub1 sub2 sub1_ids2 sub2_ids1 o p Vo OK) as H.
+      destruct (m_step tab VT ids1 ids2 sub1 sub2 o p) as [[o' out]|k] eqn:M; cbn [bind].
       + destruct H as [HA V']. rewrite HA. cbn [bind]. split.
-        * rewrite map_app, map_replace_nth. destruct out; reflexivity.
-        * apply Forall_app. split; [apply Forall_replace_nth; assumption|].
-          destruct out; constructor; [|constructor]. split; left; reflexivity.
+        * rewrite map_app, map_replace_nth, new_objs_tabs. reflexivity.
+        * apply Forall_app. split; [apply Forall_replace_nth; assumption|apply new_objs_valid].
       + rewrite H. reflexivity.
     - rewrite nth_error_map. destruct (nth_error objs k); cbn [option_map]; [|reflexivity].
       split; [reflexivity|exact V].
+    - (* merge_variants: reads the tables, builds an object without caches *)
+      rewrite pick_map. destruct (pick objs ks) as [os|]; cbn [option_map]; [|reflexivity].
+      destruct (merge (map o_tab os)) as [t|k]; cbn [bind]; [|reflexivity].
+      split; [rewrite map_app; reflexivity|].
+      apply Forall_app. split; [exact V|]. constructor; [|constructor]. split; left; reflexivity.
+  Qed.
+
+  Lemma focus_ok_map objs f x :
+    match x with
+    | XOn p => match nth_error (map o_tab objs) f with Some t => op_ok tab VT ids1 ids2 t p | None => True end
+    | _ => True
+    end -> focus_ok objs f x.
+  Proof.
+    destruct x as [p|k|ks]; cbn; try (intros; exact I). rewrite nth_error_map.
+    destruct (nth_error objs f); cbn; auto.
   Qed.
 
   Theorem pool_run_refines ops : forall objs f,
@@ -508,18 +643,76 @@ Section PoolProofs.
   Proof.
     induction ops as [|x r IH]; intros objs f V OK; [reflexivity|].
     destruct OK as [OKx OKr].
-    assert (OKx' : match x with
-                   | XOn p => match nth_error objs f with Some o => op_ok tab ids1 ids2 (o_tab o) p | None => True end
-                   | XSwitch _ => True end).
-    { destruct x as [p|k]; [|exact I]. rewrite nth_error_map in OKx.
-      destruct (nth_error objs f); [exact OKx|exact I]. }
-    pose proof (pool_step_refines objs f x V OKx') as H.
+    pose proof (pool_step_refines objs f x V (focus_ok_map objs f x OKx)) as H.
     cbn [C12_Model.pool_m_run C12_Model.pool_a_run].
     destruct (pool_m_step objs f x) as [[[objs' f'] out]|k] eqn:E.
     - destruct H as [HA V']. rewrite HA. rewrite nth_error_map.
       destruct (nth_error objs' f') as [o|]; cbn [option_map]; [|reflexivity].
       f_equal. apply IH; [exact V'|]. eapply OKr. exact HA.
     - rewrite H. reflexivity.
+  Qed.
+
+  (* ---- going on after a caught ValueError; index() as repaired ---- *)
+
+  Fixpoint pool_ops_okx (ts : list tab) (f : nat) (ops : list (xop (op tab VT))) : Prop :=
+    match ops with
+    | [] => True
+    | x :: r =>
+        match x with
+        | XOn p => match nth_error ts f with Some t => op_ok tab VT ids1 ids2 t p | None => True end
+        | _ => True
+        end
+        /\ match pool_a_step ts f x with
+           | Ok (ts', f', _) => pool_ops_okx ts' f' r
+           | Err _ => pool_ops_okx ts f r
+           end
+    end.
+
+  Lemma replace_nth_same {A} (l : list A) n x : nth_error l n = Some x -> replace_nth n x l = l.
+  Proof.
+    revert n. induction l as [|y r IH]; intros [|n] H; cbn in *; try discriminate.
+    - injection H as ->. reflexivity.
+    - rewrite IH by exact H. reflexivity.
+  Qed.
+
+  Lemma pool_fail_ok objs f x :
+    Forall cache_valid objs ->
+    Forall cache_valid (pool_fail tab VT ids1 ids2 true objs f x)
+    /\ map o_tab (pool_fail tab VT ids1 ids2 true objs f x) = map o_tab objs.
+  Proof.
+    intro V. destruct x as [p|k|ks]; cbn [pool_fail]; [|split; [exact V|reflexivity]..].
+    destruct (nth_error objs f) as [o|] eqn:E; [|split; [exact V|reflexivity]].
+    assert (Vo : cache_valid o).
+    { rewrite Forall_forall in V. apply V. eapply nth_error_In. exact E. }
+    destruct (fail_obj_valid tab VT ids1 ids2 o p Vo) as [V' T']. split.
+    - apply Forall_replace_nth; assumption.
+    - rewrite map_replace_nth, T'. apply replace_nth_same. rewrite nth_error_map, E. reflexivity.
+  Qed.
+
+  Theorem pool_runx_refines ops : forall objs f,
+    Forall cache_valid objs -> pool_ops_okx (map o_tab objs) f ops ->
+    pool_m_runx true objs f ops = pool_a_runx (map o_tab objs) f ops.
+  Proof.
+    induction ops as [|x r IH]; intros objs f V OK; [reflexivity|].
+    destruct OK as [OKx OKr].
+    pose proof (pool_step_refines objs f x V (focus_ok_map objs f x OKx)) as H.
+    cbn [C12_Model.pool_m_runx C12_Model.pool_a_runx].
+    destruct (pool_m_step objs f x) as [[[objs' f'] out]|k] eqn:E.
+    - destruct H as [HA V']. rewrite HA in *. rewrite nth_error_map.
+      destruct (nth_error objs' f') as [o|]; cbn [option_map]; [|reflexivity].
+      f_equal. apply IH; [exact V'|exact OKr].
+    - rewrite H in *. f_equal. destruct (k =? E_Value); [|reflexivity].
+      destruct (pool_fail_ok objs f x V) as [V' T']. rewrite <- T'. apply IH; [exact V'|].
+      rewrite T'. exact OKr.
+  Qed.
+
+  Theorem pool_run_cut_runx heal ops : forall objs f,
+    pool_m_run objs f ops = cut (pool_m_runx heal objs f ops).
+  Proof.
+    induction ops as [|x r IH]; intros objs f; [reflexivity|].
+    cbn [C12_Model.pool_m_run C12_Model.pool_m_runx].
+    destruct (pool_m_step objs f x) as [[[objs' f'] out]|k]; [|reflexivity].
+    destruct (nth_error objs' f'); cbn [cut]; [f_equal; apply IH|reflexivity].
   Qed.
 
   (* non-interference: an operation on the object in focus leaves every other object -
@@ -530,17 +723,18 @@ Section PoolProofs.
     f' = f
     /\ (forall j, j <> f -> (j < length objs)%nat -> nth_error objs' j = nth_error objs j)
     /\ match out with
-       | Some t => nth_error objs' (length objs) = Some (mko t None None)
-                   /\ length objs' = S (length objs)
-       | None => length objs' = length objs
+       | OCopy t => nth_error objs' (length objs) = Some (mko t None None)
+                    /\ length objs' = S (length objs)
+       | _ => length objs' = length objs
        end.
   Proof.
     cbn [C12_Model.pool_m_step]. destruct (nth_error objs f) as [o|] eqn:E; [|discriminate].
-    destruct (m_step tab ids1 ids2 sub1 sub2 o p) as [[o' out0]|k]; cbn [bind]; [|discriminate].
+    destruct (m_step tab VT ids1 ids2 sub1 sub2 o p) as [[o' out0]|k]; cbn [bind]; [|discriminate].
     intro H. injection H as <- <- <-. split; [reflexivity|]. split.
     - intros j Hj Hl. rewrite nth_error_app1 by (rewrite replace_nth_length; exact Hl).
       apply nth_error_replace_other. exact Hj.
-    - destruct out0 as [t|].
+    - destruct out0 as [|t|v]; cbn [new_objs].
+      + rewrite app_nil_r. apply replace_nth_length.
       + split.
         * rewrite nth_error_app2 by (rewrite replace_nth_length; lia).
           rewrite replace_nth_length, Nat.sub_diag. reflexivity.
@@ -548,36 +742,113 @@ Section PoolProofs.
       + rewrite app_nil_r. apply replace_nth_length.
   Qed.
 
+  (* the same for an operation that raised: only the object in focus can have changed *)
+  Theorem pool_fail_frame heal objs f x j :
+    j <> f -> nth_error (pool_fail tab VT ids1 ids2 heal objs f x) j = nth_error objs j.
+  Proof.
+    intro Hj. destruct x as [p|k|ks]; cbn [pool_fail]; try reflexivity.
+    destruct (nth_error objs f); [|reflexivity]. apply nth_error_replace_other. exact Hj.
+  Qed.
+
+  (* a merge changes none of the existing objects and returns an object without caches *)
+  Theorem pool_merge_frame objs f ks objs' f' out :
+    pool_m_step objs f (XMerge ks) = Ok (objs', f', out) ->
+    f' = f /\ exists t, out = OCopy t /\ objs' = objs ++ [mko t None None].
+  Proof.
+    cbn [C12_Model.pool_m_step]. destruct (pick objs ks) as [os|]; [|discriminate].
+    destruct (merge (map o_tab os)) as [t|k]; cbn [bind]; [|discriminate].
+    intro H. injection H as <- <- <-. split; [reflexivity|]. exists t. auto.
+  Qed.
+
   Theorem pool_switch_frame objs f k objs' f' out :
-    pool_m_step objs f (XSwitch k) = Ok (objs', f', out) -> objs' = objs /\ f' = k /\ out = None.
+    pool_m_step objs f (XSwitch k) = Ok (objs', f', out) -> objs' = objs /\ f' = k /\ out = ONone.
   Proof.
     cbn [C12_Model.pool_m_step]. destruct (nth_error objs k); [|discriminate].
     intro H. injection H as <- <- <-. auto.
   Qed.
 
   Lemma pool_ops_ok_all ops :
-    (forall t x p, In x ops -> x = XOn p -> op_ok tab ids1 ids2 t p) ->
+    (forall t x p, In x ops -> x = XOn p -> op_ok tab VT ids1 ids2 t p) ->
     forall ts f, pool_ops_ok ts f ops.
   Proof.
     induction ops as [|x r IH]; intros H ts f; cbn; [exact I|]. split.
-    - destruct x as [p|k]; [|exact I]. destruct (nth_error ts f); [|exact I].
+    - destruct x as [p|k|ks]; try exact I. destruct (nth_error ts f); [|exact I].
       eapply H; [left; reflexivity|reflexivity].
     - intros ts' f' out _. apply IH. intros t y p Hy. apply H. right. exact Hy.
   Qed.
+
+  Lemma pool_ops_okx_all ops :
+    (forall t x p, In x ops -> x = XOn p -> op_ok tab VT ids1 ids2 t p) ->
+    forall ts f, pool_ops_okx ts f ops.
+  Proof.
+    induction ops as [|x r IH]; intros H ts f; cbn; [exact I|]. split.
+    - destruct x as [p|k|ks]; try exact I. destruct (nth_error ts f); [|exact I].
+      eapply H; [left; reflexivity|reflexivity].
+    - assert (R : forall ts f, pool_ops_okx ts f r).
+      { apply IH. intros t y p Hy. apply H. right. exact Hy. }
+      destruct (pool_a_step ts f x) as [[[ts' f'] o]|k]; apply R.
+  Qed.
 End PoolProofs.
 
-(* genotypes: every history over the object and its copies, no precondition *)
+(* genotypes: every history over the object, its copies and merged objects, no precondition *)
+Lemma g_pool_all_ok (T : Type) (rare : T -> Z -> Z -> bool) (file : gtab) (anc : bool) (ops : list (xop (gop T))) :
+  forall t x p, In x (map (xmap (g_interp T rare file anc false)) ops) -> x = XOn p ->
+                op_ok gtab gview g_ids1 g_ids2 t p.
+Proof.
+  intros t x p Hx ->. apply in_map_iff in Hx. destruct Hx as [y [Hy _]].
+  destruct y as [q|k|ks]; cbn in Hy; try discriminate. injection Hy as <-. apply g_op_ok.
+Qed.
+
 Theorem refines_geno_pool (T : Type) (rare : T -> Z -> Z -> bool) (file : gtab) (anc : bool)
         (ops : list (xop (gop T))) :
   gm_prun T rare file anc false ops = ga_prun T rare file anc false ops.
 Proof.
   unfold gm_prun, ga_prun.
   change [g_empty anc] with (map (@o_tab gtab) [g_init anc]).
-  apply (pool_run_refines gtab g_ids1 g_ids2 g_sub1 g_sub2 g_sub1_ids2 g_sub2_ids1).
+  apply (pool_run_refines gtab gview g_ids1 g_ids2 g_sub1 g_sub2 g_merge g_sub1_ids2 g_sub2_ids1).
   - constructor; [split; left; reflexivity|constructor].
-  - apply pool_ops_ok_all. intros t x p Hx ->. apply in_map_iff in Hx. destruct Hx as [y [Hy _]].
-    destruct y as [q|k]; cbn in Hy; [|discriminate]. injection Hy as <-. apply g_op_ok.
+  - apply pool_ops_ok_all. apply g_pool_all_ok.
 Qed.
+
+(* ... and going on after every caught ValueError, once index() discards the dictionary in
+   which it found duplicates *)
+Theorem refines_geno_poolx (T : Type) (rare : T -> Z -> Z -> bool) (file : gtab) (anc : bool)
+        (ops : list (xop (gop T))) :
+  gm_prunx T rare file anc false true ops = ga_prunx T rare file anc false ops.
+Proof.
+  unfold gm_prunx, ga_prunx.
+  change [g_empty anc] with (map (@o_tab gtab) [g_init anc]).
+  apply (pool_runx_refines gtab gview g_ids1 g_ids2 g_sub1 g_sub2 g_merge g_sub1_ids2 g_sub2_ids1).
+  - constructor; [split; left; reflexivity|constructor].
+  - apply pool_ops_okx_all. apply g_pool_all_ok.
+Qed.
+
+(* the histories that stop at the first exception are prefixes of those, for the tree as it is too *)
+Theorem geno_prun_cut (T : Type) (rare : T -> Z -> Z -> bool) (file : gtab) (anc legacy heal : bool)
+        (ops : list (xop (gop T))) :
+  gm_prun T rare file anc legacy ops = cut (gm_prunx T rare file anc legacy heal ops).
+Proof. apply pool_run_cut_runx. Qed.
+
+(* index() as it is in the tree: a file in which variant 0 occurs twice; the first by-ID subset
+   raises ValueError (duplicate IDs) but leaves the dictionary behind, so the same call then
+   answers - with the last of the two columns - where a fresh object raises again *)
+Definition fdup : gtab :=
+  mkg [0; 1] [gv 0 1 10; gv 1 1 12; gv 0 1 14]
+      [[gc 0 1 1; gc 1 1 1; gc 0 0 1]; [gc 1 0 1; gc 0 0 1; gc 1 1 1]] 3 None.
+Definition dup_history : list (xop (gop unit)) :=
+  [XOn (GRead None None); XOn (GSubset None (Some [0]) false); XOn (GSubset None (Some [0]) false)].
+Definition shown (x : res (gtab * out gtab gview)) : res (list Z) :=
+  match x with
+  | Ok (_, OCopy r) => Ok (map vpos (g_variants r))
+  | Ok _ => Ok []
+  | Err k => Err k
+  end.
+
+Example index_failure_poisons_refuted :
+  map shown (gm_prunx unit norare fdup false false false dup_history) = [Ok []; Err E_Value; Ok [14]]
+  /\ map shown (gm_prunx unit norare fdup false false true dup_history) = [Ok []; Err E_Value; Err E_Value]
+  /\ map shown (ga_prunx unit norare fdup false false dup_history) = [Ok []; Err E_Value; Err E_Value].
+Proof. repeat split; vm_compute; reflexivity. Qed.
 
 (* phenotypes: append must be given a name the object IT IS APPLIED TO does not hold *)
 Section PhenoPool.
@@ -589,40 +860,117 @@ Section PhenoPool.
     | x :: r =>
         match x with
         | XOn p => match nth_error ts f with Some t => p_pre t p | None => True end
-        | XSwitch _ => True
+        | _ => True
         end
         /\ forall ts' f' out,
-             pool_a_step ptab p_ids1 p_ids2 p_sub1 p_sub2 ts f (xmap (p_interp file false) x) = Ok (ts', f', out) ->
+             pool_a_step ptab unit p_ids1 p_ids2 p_sub1 p_sub2 p_merge ts f (xmap (p_interp file false false) x)
+             = Ok (ts', f', out) ->
              fresh_appends_pool ts' f' r
     end.
 
   Lemma fresh_appends_pool_ok ops : forall ts f,
     fresh_appends_pool ts f ops ->
-    pool_ops_ok ptab p_ids1 p_ids2 p_sub1 p_sub2 ts f (map (xmap (p_interp file false)) ops).
+    pool_ops_ok ptab unit p_ids1 p_ids2 p_sub1 p_sub2 p_merge ts f (map (xmap (p_interp file false false)) ops).
   Proof.
     induction ops as [|x r IH]; intros ts f H; cbn; [exact I|]. destruct H as [Hx Hr]. split.
-    - destruct x as [p|k]; cbn; [|exact I]. destruct (nth_error ts f); [|exact I].
+    - destruct x as [p|k|ks]; cbn; try exact I. destruct (nth_error ts f); [|exact I].
       apply p_op_ok. exact Hx.
     - intros ts' f' out E. apply IH. eapply Hr. exact E.
   Qed.
 
   Theorem refines_pheno_pool ops :
-    fresh_appends_pool [p_empty] 0 ops -> pm_prun file false ops = pa_prun file false ops.
+    fresh_appends_pool [p_empty] 0 ops -> pm_prun file false false ops = pa_prun file false false ops.
   Proof.
     intro H. unfold pm_prun, pa_prun.
     change [p_empty] with (map (@o_tab ptab) [p_init]).
-    apply (pool_run_refines ptab p_ids1 p_ids2 p_sub1 p_sub2 p_sub1_ids2 p_sub2_ids1).
+    apply (pool_run_refines ptab unit p_ids1 p_ids2 p_sub1 p_sub2 p_merge p_sub1_ids2 p_sub2_ids1).
     - constructor; [split; left; reflexivity|constructor].
     - apply fresh_appends_pool_ok. exact H.
   Qed.
+
+  (* the repaired append (the name index is discarded when the name is already there): every
+     operation declares its effect truthfully, no precondition is left *)
+  Lemma p_op_ok_fixed t p : op_ok ptab unit p_ids1 p_ids2 t (p_interp file false true p).
+  Proof.
+    destruct p as [ss|ss ns i|s n| |name col|]; cbn; try exact I.
+    - intros t' a1 a2 H. injection H as <- <- <-. cbn. auto.
+    - intros t' a1 a2 H.
+      destruct (existsb (fun b => b) (map row_missing (p_rows t))); injection H as <- <- <-; cbn; auto.
+    - intros t' a1 a2 H. destruct (Nat.eqb (length col) (length (p_rows t))); [|discriminate].
+      injection H as <- <- <-. cbn. split; [reflexivity|].
+      destruct (memZ name (p_names t)) eqn:E; cbn; [exact I|].
+      split; [reflexivity|]. intro Hin. apply (proj2 (memZ_In _ _)) in Hin. unfold p_ids2 in Hin. congruence.
+    - intros t' a1 a2 H.
+      destruct (existsb (fun b => b) (map row_missing (p_rows t))); [discriminate|].
+      injection H as <- <- <-. cbn. auto.
+  Qed.
+
+  Lemma p_pool_all_ok (ops : list (xop pop)) :
+    forall t x p, In x (map (xmap (p_interp file false true)) ops) -> x = XOn p ->
+                  op_ok ptab unit p_ids1 p_ids2 t p.
+  Proof.
+    intros t x p Hx ->. apply in_map_iff in Hx. destruct Hx as [y [Hy _]].
+    destruct y as [q|k|ks]; cbn in Hy; try discriminate. injection Hy as <-. apply p_op_ok_fixed.
+  Qed.
+
+  Theorem refines_pheno_fixed ops : pm_run file false true ops = pa_run file false true ops.
+  Proof.
+    unfold pm_run, pa_run.
+    apply (run_refines ptab unit p_ids1 p_ids2 p_sub1 p_sub2 p_sub1_ids2 p_sub2_ids1).
+    - split; left; reflexivity.
+    - apply ops_ok_all. intros t p Hp. apply in_map_iff in Hp. destruct Hp as [q [<- _]].
+      apply p_op_ok_fixed.
+  Qed.
+
+  Theorem refines_pheno_pool_fixed ops : pm_prun file false true ops = pa_prun file false true ops.
+  Proof.
+    unfold pm_prun, pa_prun.
+    change [p_empty] with (map (@o_tab ptab) [p_init]).
+    apply (pool_run_refines ptab unit p_ids1 p_ids2 p_sub1 p_sub2 p_merge p_sub1_ids2 p_sub2_ids1).
+    - constructor; [split; left; reflexivity|constructor].
+    - apply pool_ops_ok_all. apply p_pool_all_ok.
+  Qed.
+
+  Theorem refines_pheno_poolx_fixed ops : pm_prunx file false true true ops = pa_prunx file false true ops.
+  Proof.
+    unfold pm_prunx, pa_prunx.
+    change [p_empty] with (map (@o_tab ptab) [p_init]).
+    apply (pool_runx_refines ptab unit p_ids1 p_ids2 p_sub1 p_sub2 p_merge p_sub1_ids2 p_sub2_ids1).
+    - constructor; [split; left; reflexivity|constructor].
+    - apply pool_ops_okx_all. apply p_pool_all_ok.
+  Qed.
+
+  Theorem pheno_prun_cut legacy fixapp heal ops :
+    pm_prun file legacy fixapp ops = cut (pm_prunx file legacy fixapp heal ops).
+  Proof. apply pool_run_cut_runx. Qed.
 End PhenoPool.
 
 (* the seeded sharing bug in the model's terms: parent indexed, copy taken, "sim" appended to the
    copy only; the parent reports "sim" (5) missing, the copy finds it *)
 Example copies_do_not_share :
-  map (fun x => match x with Ok (_, Some r) => p_names r | _ => [] end)
-      (pm_prun pf3 false [XOn (PRead None); XOn (PIndex true true); XOn (PSubset (Some [0; 2]) None false);
+  map (fun x => match x with Ok (_, OCopy r) => p_names r | _ => [] end)
+      (pm_prun pf3 false false [XOn (PRead None); XOn (PIndex true true); XOn (PSubset (Some [0; 2]) None false);
                           XSwitch 1; XOn (PAppend 5 [4; 4]); XOn (PSubset None (Some [5; 1]) false);
                           XSwitch 0; XOn (PSubset None (Some [5; 1]) false)])
   = [[]; []; [0; 1]; []; []; [5; 1]; []; [1]].
 Proof. vm_compute. reflexivity. Qed.
+
+(* append() as it is in the tree, given a name the object already holds (what PhenoSimulator.run
+   does on every replicate): with the name index built the look-up answers with the new column,
+   without it (and on a fresh object) the duplicate is reported; the repaired append agrees
+   with the cache-free run *)
+Definition pshown (x : res (ptab * out ptab unit)) : res (list (list Z)) :=
+  match x with
+  | Ok (_, OCopy r) => Ok (p_rows r)
+  | Ok _ => Ok []
+  | Err k => Err k
+  end.
+Definition app_history (build : bool) : list pop :=
+  [PRead None; PIndex false build; PAppend 0 [4; 6; 8]; PSubset None (Some [0]) false].
+
+Example append_present_refuted :
+  map pshown (pm_run pf3 false false (app_history true)) = [Ok []; Ok []; Ok []; Ok [[4]; [6]; [8]]]
+  /\ map pshown (pm_run pf3 false false (app_history false)) = [Ok []; Ok []; Ok []; Err E_Value]
+  /\ map pshown (pa_run pf3 false false (app_history true)) = [Ok []; Ok []; Ok []; Err E_Value]
+  /\ map pshown (pm_run pf3 false true (app_history true)) = [Ok []; Ok []; Ok []; Err E_Value].
+Proof. repeat split; vm_compute; reflexivity. Qed.
